@@ -134,9 +134,15 @@ def xsNs : String := "http://www.w3.org/2001/XMLSchema"
 def prefixOf (f : SchemaFile) (ns : Nat) : String :=
   ((f.prefixes.find? (fun p => p.1 == ns)).map (·.2)).getD ("ns" ++ toString ns)
 
+/-- a reference to `n` of namespace `ns`: prefixed, or bare when the file binds that namespace as its
+    default namespace (prefix `""`) -/
+def qname (f : SchemaFile) (ns : Nat) (n : String) : String :=
+  let p := prefixOf f ns
+  if p.isEmpty then n else p ++ ":" ++ n
+
 def renderTypeRef (f : SchemaFile) : TypeRef → String
   | .builtin b => "xs:" ++ b
-  | .named ns n => prefixOf f ns ++ ":" ++ n
+  | .named ns n => qname f ns n
 
 def renderOccurs (o : Occurs) : String :=
   (if o.min == 1 then "" else " minOccurs=\"" ++ toString o.min ++ "\"") ++
@@ -148,7 +154,7 @@ def renderOccurs (o : Occurs) : String :=
 mutual
 def renderParticle (f : SchemaFile) (ind : String) : Particle → String
   | .elem n t o => ind ++ "<xs:element name=\"" ++ xmlEsc n ++ "\" type=\"" ++ renderTypeRef f t ++ "\"" ++ renderOccurs o ++ "/>\n"
-  | .ref ns n o => ind ++ "<xs:element ref=\"" ++ prefixOf f ns ++ ":" ++ xmlEsc n ++ "\"" ++ renderOccurs o ++ "/>\n"
+  | .ref ns n o => ind ++ "<xs:element ref=\"" ++ qname f ns (xmlEsc n) ++ "\"" ++ renderOccurs o ++ "/>\n"
   | .seq o ps => ind ++ "<xs:sequence" ++ renderOccurs o ++ ">\n" ++ renderParticles f (ind ++ "  ") ps ++ ind ++ "</xs:sequence>\n"
   | .choice o ps => ind ++ "<xs:choice" ++ renderOccurs o ++ ">\n" ++ renderParticles f (ind ++ "  ") ps ++ ind ++ "</xs:choice>\n"
 def renderParticles (f : SchemaFile) (ind : String) : List Particle → String
@@ -172,7 +178,7 @@ def renderContent (f : SchemaFile) (ind : String) (d : ComplexDef) : String :=
 def renderComplexBody (f : SchemaFile) (ind : String) (d : ComplexDef) : String :=
   match d.base with
   | some (ns, b) =>
-    ind ++ "<xs:complexContent>\n" ++ ind ++ "  <xs:extension base=\"" ++ prefixOf f ns ++ ":" ++ xmlEsc b ++ "\">\n" ++
+    ind ++ "<xs:complexContent>\n" ++ ind ++ "  <xs:extension base=\"" ++ qname f ns (xmlEsc b) ++ "\">\n" ++
     renderContent f (ind ++ "    ") d ++ ind ++ "  </xs:extension>\n" ++ ind ++ "</xs:complexContent>\n"
   | none => renderContent f ind d
 
@@ -210,7 +216,7 @@ def renderImports (s : SchemaSet) (f : SchemaFile) : String :=
 
 def renderSchemaOpen (s : SchemaSet) (f : SchemaFile) (ind : String) : String :=
   ind ++ "<xs:schema xmlns:xs=\"" ++ xsNs ++ "\"" ++
-  String.join (f.prefixes.map fun (ns, p) => " xmlns:" ++ p ++ "=\"" ++ xmlEsc (uriOf s ns) ++ "\"") ++
+  String.join (f.prefixes.map fun (ns, p) => (if p.isEmpty then " xmlns" else " xmlns:" ++ p) ++ "=\"" ++ xmlEsc (uriOf s ns) ++ "\"") ++
   " targetNamespace=\"" ++ xmlEsc (uriOf s f.tns) ++ "\" elementFormDefault=\"qualified\" attributeFormDefault=\"unqualified\">\n"
 
 def renderFile (s : SchemaSet) (f : SchemaFile) : String :=
